@@ -205,6 +205,11 @@ def build_dataset(case, order, colorder=None):
     for nme in frame_names:
         d[nme] = cols[nme]
     df = pd.DataFrame(d)
+    if case.get("frame_idx"):
+        # the caller's frame as it looks after df.iloc[perm] / sort_values / sample WITHOUT reset_index: row labels are a permutation
+        # of 0..n-1, not the positions; and the label column holds 1/0 integers, as a caller may hold it
+        df["tgt"] = df["tgt"].astype(np.int64)
+        df.index = [int(x) for x in np.random.default_rng(len(df) + 11).permutation(len(df))]
     return mokapot.dataset.LinearPsmDataset(df, target_column="tgt", spectrum_columns="spec", peptide_column="pep",
                                             feature_columns=feat_names, copy_data=True)
 
@@ -412,7 +417,7 @@ def case_from_group(key, g, idx):
     case = {"src": "tlc", "n": n, "tgt": list(tgt), "names": ["fa", "fb"],
             "feats": {"fa": list(a), "fb": ident}, "direction": "fa", "thr": list(thr), "maxit": it,
             "est": {"kind": "int", "cols": [2, 1], "proba": ["", "", "2col", "1col", "flat"][idx % 5]},
-            "model": {"outcome": any_run["outcome"], "pred": any_run["pred"]}, "variants": [], "frame_rot": bool(idx % 3 == 1)}
+            "model": {"outcome": any_run["outcome"], "pred": any_run["pred"]}, "variants": [], "frame_rot": bool(idx % 3 == 1), "frame_idx": bool(idx % 4 == 2)}
     # the runs TLC explored: rows in id order, the rng returns `perm`
     case["variants"].append({"order": ident, "shuffle": True, "perm": p0, "extra": "rot" if idx % 2 else "rev",
                              "in_tlc": True in g})
@@ -466,6 +471,7 @@ def random_case(rng, idx, real_kind=None):
                              "extra": "rot" if idx % 3 == 0 else False})
     case["variants"].append({"order": order, "shuffle": False, "perm": None, "seed": int(rng.integers(0, 2 ** 31))})
     case["frame_rot"] = bool(idx % 3 == 1)
+    case["frame_idx"] = bool(idx % 4 == 2)
     return case
 
 
